@@ -36,7 +36,18 @@ func (o unmarshalOptions) Options() proto.UnmarshalOptions {
 		Resolver:       o.resolver,
 
 		NoLazyDecoding: o.NoLazyDecoding(),
+		RecursionLimit: o.depth,
 	}
+}
+
+// unmarshalState unmarshals a nested message through the proto package,
+// charging it against the remaining recursion depth.
+func (o unmarshalOptions) unmarshalState(in protoiface.UnmarshalInput) (protoiface.UnmarshalOutput, error) {
+	if o.depth <= 0 {
+		// A zero RecursionLimit would select the default limit.
+		return protoiface.UnmarshalOutput{}, errRecursionDepth
+	}
+	return o.Options().UnmarshalState(in)
 }
 
 func (o unmarshalOptions) DiscardUnknown() bool {
